@@ -23,7 +23,7 @@ pub fn def() -> PropertyDef {
     PropertyDef {
         id: "C14",
         level: "exploration",
-        scenarios: vec![Box::new(MhSupport), Box::new(HmcSupport), Box::new(NutsSupport)],
+        scenarios: vec![Box::new(MhSupport), Box::new(HmcSupport), Box::new(NutsSupport), Box::new(CallbackPanics)],
         assumptions: vec![
             "the targets are the fault injectors (other party of the Target / GradientTarget seams): -inf outside a support, NaN regions, NaN gradients, cliffs; the harness's own plain-f64 copy of each target judges the states",
             "acceptance draws equal to exactly 0 are excepted as the property states (MH: the draw is read from a clone of the chain's generator before the step; HMC: from the trace)",
@@ -105,6 +105,179 @@ impl Proposal<f64, f64> for WildProposal {
     fn set_seed(mut self, seed: u64) -> Self {
         self.rng = SmallRng::seed_from_u64(seed);
         self
+    }
+}
+
+// ---- fault: the user's target code fails (panics) at some evaluation and the caller catches it ----
+/// target that panics at its k-th evaluation of an INADMISSIBLE point (one shot)
+#[derive(Clone, Debug)]
+struct FusedTarget {
+    inner: SupportTarget,
+    fuse: Arc<std::sync::atomic::AtomicI64>,
+}
+impl Target<f64, f64> for FusedTarget {
+    fn unnorm_logp(&self, x: &[f64]) -> f64 {
+        let v = self.inner.lp(x);
+        if !(v.is_finite() && x.iter().all(|c| c.is_finite())) && self.fuse.fetch_sub(1, Ordering::SeqCst) == 1 {
+            panic!("VERIF-INJECTED target failure while evaluating an inadmissible candidate");
+        }
+        v
+    }
+}
+
+struct CallbackPanics;
+impl Scenario for CallbackPanics {
+    fn name(&self) -> &'static str {
+        "callback_panics"
+    }
+    fn runs(&self, tier: Tier) -> u64 {
+        tier.pick(1200, 120_000)
+    }
+    fn generate(&self, g: &mut Gen, _t: Tier, idx: u64) -> Value {
+        let sampler = ["mh", "mh", "mh", "hmc", "nuts"][(idx % 5) as usize];
+        json!({"sampler": sampler, "kind": g.range(0, 4), "c": fbits(g.f64_in(0.5, 3.0)), "d": g.usize(1, 3), "std": fbits(g.log_uniform(0.3, 10.0)), "seed": g.u64(), "gseed": g.u64(),
+               "fuse": g.usize(1, 6), "crash_eval": g.usize(2, 60), "steps_after": g.usize(1, 6), "eps": fbits(g.log_uniform(0.05, 2.0)), "L": g.usize(1, 6)})
+    }
+    fn execute(&self, p: &Value, ws: bool) -> Outcome {
+        let mut o = Outcome::default();
+        o.hash = str_hash(&p.to_string());
+        let mut g = Gen::new(pu(p, "gseed"));
+        let _ = mcmc_sim::sim::take_last_panic();
+        let mut fired = false;
+        match ps(p, "sampler") {
+            "mh" => {
+                let inner = SupportTarget { kind: pu(p, "kind") as u8, c: pf(p, "c") };
+                let d = pus(p, "d");
+                let start: Vec<f64> = vec![if inner.kind <= 1 { 0.4 } else { 0.0 }; d];
+                let fuse = Arc::new(std::sync::atomic::AtomicI64::new(pus(p, "fuse") as i64));
+                let t = FusedTarget { inner: inner.clone(), fuse };
+                let last = Arc::new(Mutex::new(vec![]));
+                let prop = WildProposal { rng: SmallRng::seed_from_u64(g.u64()), std: pf(p, "std"), wild: 0, asym: false, last };
+                let mut chain = MHMarkovChain::new(t, prop, start);
+                chain.rng = SmallRng::seed_from_u64(pu(p, "seed"));
+                let mut after = 0;
+                for step in 0..400 {
+                    let before = chain.current_state.clone();
+                    let r = std::panic::catch_unwind(std::panic::AssertUnwindSafe(|| {
+                        chain.step();
+                    }));
+                    o.work += 1;
+                    if r.is_err() {
+                        let m = mcmc_sim::sim::take_last_panic().unwrap_or_default();
+                        if !m.contains("VERIF-INJECTED") {
+                            let loc = m.rsplit(" @ ").next().unwrap_or("").to_string();
+                            o.violate("panic", &format!("MH::step:panic@{loc}"), m);
+                            break;
+                        }
+                        fired = true;
+                    }
+                    let now = chain.current_state.clone();
+                    if !(now.iter().all(|v| v.is_finite()) && inner.lp(&now).is_finite()) {
+                        o.violate("inadmissible_state", "MH:left-on-inadmissible-state-after-target-failure", format!("step {step}: the target's code failed while the candidate was being judged and the chain is left at {now:?} (log-density {}), it was at {before:?}", inner.lp(&now)));
+                        break;
+                    }
+                    if fired {
+                        after += 1;
+                        if after > pus(p, "steps_after") {
+                            break;
+                        }
+                    }
+                }
+            }
+            kind => {
+                let mut target = gen_support_target(&mut g);
+                let s = support_start(&mut g, &target);
+                target.crash_at = pus(p, "crash_eval") as u64;
+                target.eval_budget = 200_000;
+                let d = target.d;
+                let dev = <BF64 as burn::tensor::backend::Backend>::Device::default();
+                let judge = |o: &mut Outcome, pos: Vec<f64>, what: &str, step: usize| -> bool {
+                    for row in pos.chunks(d) {
+                        if !target.admissible(row) {
+                            o.violate("inadmissible_state", &format!("{what}:left-on-inadmissible-state-after-target-failure"), format!("step {step}: after the target's code failed the sampler holds {row:?} (log-density {}) [{:?} c={}]", target.logp(row), target.kind, target.c));
+                            return false;
+                        }
+                    }
+                    true
+                };
+                let _ = dev;
+                if kind == "hmc" {
+                    let nc = g.usize(1, 4);
+                    let starts: Vec<Vec<f64>> = (0..nc).map(|_| s.clone()).collect();
+                    let mut h = HMC::<f64, BF64, GTarget>::new(target.clone(), starts, pf(p, "eps"), pus(p, "L")).set_seed(pu(p, "seed"));
+                    for step in 0..40 {
+                        let r = std::panic::catch_unwind(std::panic::AssertUnwindSafe(|| h.step()));
+                        o.work += 1;
+                        if r.is_err() {
+                            let m = mcmc_sim::sim::take_last_panic().unwrap_or_default();
+                            if m.contains("VERIF-EVAL-BUDGET") {
+                                break;
+                            }
+                            if !m.contains("VERIF-INJECTED") {
+                                let loc = m.rsplit(" @ ").next().unwrap_or("").to_string();
+                                o.violate("panic", &format!("HMC::step:panic@{loc}"), m);
+                                break;
+                            }
+                            fired = true;
+                        }
+                        let pos = h.positions.to_data().convert::<f64>().to_vec::<f64>().unwrap();
+                        if !judge(&mut o, pos, "HMC", step) {
+                            break;
+                        }
+                    }
+                } else {
+                    let mut chain = NUTSChain::<f64, BF64, GTarget>::new(target.clone(), s.clone(), 0.8).set_seed(pu(p, "seed"));
+                    // run() for the start-up search, then single steps
+                    let r0 = std::panic::catch_unwind(std::panic::AssertUnwindSafe(|| {
+                        let _ = chain.run(2, 1);
+                    }));
+                    if r0.is_err() {
+                        let m = mcmc_sim::sim::take_last_panic().unwrap_or_default();
+                        fired = m.contains("VERIF-INJECTED");
+                        if !fired && !m.contains("VERIF-EVAL-BUDGET") {
+                            let loc = m.rsplit(" @ ").next().unwrap_or("").to_string();
+                            o.violate("panic", &format!("NUTS::run:panic@{loc}"), m);
+                        }
+                    }
+                    let pos = chain.position.to_data().convert::<f64>().to_vec::<f64>().unwrap();
+                    if o.violations.is_empty() && judge(&mut o, pos, "NUTS", 0) {
+                        for step in 1..12 {
+                            let r = std::panic::catch_unwind(std::panic::AssertUnwindSafe(|| chain.step()));
+                            o.work += 1;
+                            if r.is_err() {
+                                let m = mcmc_sim::sim::take_last_panic().unwrap_or_default();
+                                if m.contains("VERIF-EVAL-BUDGET") {
+                                    break;
+                                }
+                                if !m.contains("VERIF-INJECTED") {
+                                    let loc = m.rsplit(" @ ").next().unwrap_or("").to_string();
+                                    o.violate("panic", &format!("NUTS::step:panic@{loc}"), m);
+                                    break;
+                                }
+                                fired = true;
+                            }
+                            let pos = chain.position.to_data().convert::<f64>().to_vec::<f64>().unwrap();
+                            if !judge(&mut o, pos, "NUTS", step) {
+                                break;
+                            }
+                        }
+                    }
+                }
+            }
+        }
+        o.nontrivial = fired;
+        o.count("fault_target_code_panicked", fired as u64);
+        o.count(&format!("probe_callback_panic_{}", ps(p, "sampler")), fired as u64);
+        if ws {
+            o.sample = Some(json!({"sampler": ps(p, "sampler"), "fault_fired": fired}));
+        }
+        o
+    }
+    fn rule(&self) -> &'static str {
+        "one run = an MH chain (3 in 5), an HMC batch or a NUTS chain on a bounded-support / NaN-region target whose code panics once - MH: at the k-th evaluation of an inadmissible candidate, HMC/NUTS: at evaluation k - with the caller catching the panic (as a worker-thread join does) and going on; after the failed step and after every later step the sampler's state must be admissible; non-trivial = the fault fired"
+    }
+    fn components(&self) -> Value {
+        json!({"real": ["MHMarkovChain::step", "HMC::step", "NUTSChain::run/step"], "stub": ["targets with an injected one-shot panic"]})
     }
 }
 
